@@ -75,8 +75,19 @@ func edgeCond(e edge) (ssa.Value, bool, bool) {
 		}
 		break
 	}
+	// `a != b` taken on its false edge is `a == b` on its true edge: rules only ever see the == form
+	if b, ok := cond.(*ssa.BinOp); ok && b.Op == token.NEQ {
+		eq, have := eqFormOf[b]
+		if !have {
+			eq = &ssa.BinOp{Op: token.EQL, X: b.X, Y: b.Y}
+			eqFormOf[b] = eq
+		}
+		return eq, !truth, true
+	}
 	return cond, truth, true
 }
+
+var eqFormOf = map[*ssa.BinOp]*ssa.BinOp{}
 
 // consOfEdge: difference constraints that hold after taking edge e.
 func consOfEdge(e edge) []DCons {
@@ -282,4 +293,36 @@ func isCallNamed(v ssa.Value, name string) (*ssa.Call, bool) {
 
 func fnShortName(key string) string {
 	return strings.ReplaceAll(key, modPath+"/", "")
+}
+
+// ordForm: the ordering a comparison establishes when it has the given truth, in one canonical shape: lo < hi (strict) or
+// lo <= hi. ok is false for anything that is not an ordering comparison.
+func ordForm(cond ssa.Value, truth bool) (lo, hi ssa.Value, strict, ok bool) {
+	b, isB := cond.(*ssa.BinOp)
+	if !isB {
+		return nil, nil, false, false
+	}
+	switch b.Op {
+	case token.LSS: // x < y
+		if truth {
+			return b.X, b.Y, true, true
+		}
+		return b.Y, b.X, false, true
+	case token.LEQ: // x <= y
+		if truth {
+			return b.X, b.Y, false, true
+		}
+		return b.Y, b.X, true, true
+	case token.GTR: // x > y
+		if truth {
+			return b.Y, b.X, true, true
+		}
+		return b.X, b.Y, false, true
+	case token.GEQ: // x >= y
+		if truth {
+			return b.Y, b.X, false, true
+		}
+		return b.X, b.Y, true, true
+	}
+	return nil, nil, false, false
 }
